@@ -438,6 +438,7 @@ def unfuse_legs(a, axes) -> 'Tensor':
         raise YastnError('Cannot unfuse legs of a diagonal tensor.')
     if isinstance(axes, int):
         axes = (axes,)
+    axes = tuple(ax + a.ndim if isinstance(ax, int) and ax < 0 else ax for ax in axes)  # negative axes count from the end, as elsewhere
     ui, mfs, axes_mf, axes_uf, axes_hf = 0, [], [], [], []
     for mi in range(a.ndim):
         hi = a.trans[ui]
